@@ -20,7 +20,7 @@ NOTE = "Trusted: the forest generator and the comprehension. A decoy metamodel (
 
 GRAMMAR = """
 Model: elems*=Elem;
-Elem: A | B | C | Ra | Rbase | Rc | Rl;
+Elem: A | B | C | Ra | Rbase | Rc | Rl | Rm | Rs;
 A: 'A' name=ID ('{' elems*=Elem '}')?;
 B: 'B' name=ID;
 C: 'C' name=ID;
@@ -29,6 +29,8 @@ Ra: 'ra' ref=[A];
 Rbase: 'rbase' ref=[Base];
 Rc: 'rc' ref=[C];
 Rl: 'rl' refs+=[Base][','];
+Rm: 'rm' refs+=[Base] (',' refs+=[Base])*;
+Rs: 'rs' ('alt' ref=[A] | ref=[A]);
 """
 NAMES = ["x", "y"]
 CONF = {"A": {"A", "Base"}, "B": {"Base"}, "C": {"C"}}
@@ -58,9 +60,18 @@ def trees(k, depth):
 
 
 REFS = ([("ra", (n,)) for n in "xyz"] + [("rbase", (n,)) for n in "xyz"] + [("rc", (n,)) for n in "xyz"]
-        + [("rl", (a,)) for a in "xz"] + [("rl", (a, b)) for a in "xyz" for b in "xyz"])
-REF_TARGET = {"ra": "A", "rbase": "Base", "rc": "C", "rl": "Base"}
-BUILTINS = ["none", "x:A", "x:C", "z:A", "z:B"]
+        + [("rl", (a,)) for a in "xz"] + [("rl", (a, b)) for a in "xyz" for b in "xyz"]
+        # the same reference attribute assigned at two places of one rule
+        + [("rm", (a, b)) for a in "xyz" for b in "xz"] + [("rs", (n,)) for n in "xyz"] + [("rs alt", (n,)) for n in "xz"])
+REF_TARGET = {"ra": "A", "rbase": "Base", "rc": "C", "rl": "Base", "rm": "Base", "rs": "A", "rs alt": "A"}
+# "z:Cpy": a plain Python instance of the user class registered for rule C (no position, no owning model)
+BUILTINS = ["none", "x:A", "x:C", "z:A", "z:B", "z:Cpy"]
+
+
+class C:
+    def __init__(self, parent=None, name=None):
+        self.parent = parent
+        self.name = name
 
 
 def render_forest(f):
@@ -79,7 +90,7 @@ def flat(f, path=()):
         yield from flat(kids, path + (i,))
 
 
-def world():
+def world(tools=False):
     if "mm" not in _S:
         from textx import metamodel_from_str
 
@@ -88,12 +99,13 @@ def world():
         decoy = metamodel_from_str(GRAMMAR.replace("Base: A | B;", "Base: C | B;").replace("Rl: 'rl' refs+=[Base][','];", "Rl: 'rl' refs+=[A][','];"))
         dm = decoy.model_from_str("A x B y C z rbase y rbase z ra x rc z rl x")
         assert dm.elems[4].ref is dm.elems[2]
-        mm = metamodel_from_str(GRAMMAR)
+        mm = metamodel_from_str(GRAMMAR, classes=[C])
         bm = mm.model_from_str("A x C x A z B z")
         _S["mm"] = mm
+        _S["mm-tools"] = metamodel_from_str(GRAMMAR, classes=[C], textx_tools_support=True)
         _S["b"] = {"x:A": {"x": bm.elems[0]}, "x:C": {"x": bm.elems[1]}, "z:A": {"z": bm.elems[2]},
-                   "z:B": {"z": bm.elems[3]}, "none": None}
-    return _S["mm"], _S["b"]
+                   "z:B": {"z": bm.elems[3]}, "z:Cpy": {"z": C(name="z")}, "none": None}
+    return _S["mm-tools" if tools else "mm"], _S["b"]
 
 
 def obj_at(model, path):
@@ -111,15 +123,15 @@ def expected_one(defs, target, name, bkey):
         return ("err", "not unique")
     if bkey != "none":
         bn, bk = bkey.split(":")
-        if bn == name and target in CONF[bk]:
+        if bn == name and target in CONF[bk[:1]]:
             return ("builtin", bkey)
     return ("err", "Unknown object")
 
 
-def run_case(forest, ref, bkey, nested):
+def run_case(forest, ref, bkey, nested, tools=False):
     from textx.exceptions import TextXSemanticError
 
-    mm, B = world()
+    mm, B = world(tools)
     mm.builtins = B[bkey]
     kind, names = ref
     reftext = "%s %s" % (kind, " , ".join(names))
@@ -160,7 +172,7 @@ def run_case(forest, ref, bkey, nested):
         obs["got"] = "loaded"
         return False, obs
     r = obj_at(m, refpath)
-    vals = [r.ref] if kind != "rl" else list(r.refs)
+    vals = list(r.refs) if kind in ("rl", "rm") else [r.ref]
     ok = len(vals) == len(exp)
     got = []
     for v, e in zip(vals, exp):
@@ -180,17 +192,19 @@ def work(arg):
     for f in fs:
         for ref in REFS:
             for bkey in BUILTINS:
-                for nested in (False, True):
-                    cid = [render_forest(f), list(ref), bkey, nested]
+                for nested, tools in ((False, False), (True, False), (False, True)):
+                    if tools and bkey == "none" and len(f) > 1:
+                        continue
+                    cid = [render_forest(f), list(ref), bkey, nested, tools]
                     with watchdog(10):
-                        ok, obs = run_case(f, ref, bkey, nested)
+                        ok, obs = run_case(f, ref, bkey, nested, tools)
                     if "skipped" in obs:
                         continue
                     kinds = sorted({e[0] if e[0] != "err" else e[1] for e in obs["expected"]})
                     u.case(cid, nontrivial=True, sample=obs if len(f) > 1 else None)
                     u.count("expected:" + "+".join(kinds))
                     if not ok:
-                        u.fail(cid, {"forest": f, "ref": ref, "builtins": bkey, "nested": nested},
+                        u.fail(cid, {"forest": f, "ref": ref, "builtins": bkey, "nested": nested, "tools": tools}, sig="%s %s tools=%s" % (ref[0], bkey, tools),
                                what="%s builtins=%s expected %s observed %s" % (obs["text"], bkey, obs["expected"], obs.get("error", obs.get("identity_ok", obs.get("got")))))
     return u
 
@@ -206,10 +220,10 @@ def run(ctx):
     ctx.pmap(work, [fs[i:i + B] for i in range(0, len(fs), B)])
     return {
         "rule": "case = (forest of <=%d definitions over kinds A/B/C, names x/y, nesting depth <=2) x reference element (kind, names incl. "
-                "dangling z) x builtins %s x placement (top level / nested in the first A); every case is distinct and non-trivial (a real load)" % (D, BUILTINS),
+                "dangling z) x builtins %s x placement (top level / nested in the first A / top level with textx_tools_support=True); every case is distinct and non-trivial (a real load)" % (D, BUILTINS),
         "exhaustive": True, "forests": len(fs), "references": len(REFS),
     }, ["abstract rule Base: A|B; conformance table A:{A,Base} B:{Base} C:{C} is the documented inheritance"]
 
 
 def replay(p):
-    return run_case(tup(p["forest"]), (p["ref"][0], tuple(p["ref"][1])), p["builtins"], p["nested"])
+    return run_case(tup(p["forest"]), (p["ref"][0], tuple(p["ref"][1])), p["builtins"], p["nested"], p.get("tools", False))
